@@ -339,6 +339,12 @@ func (i *instance) HAProxyUpdate(timer *utils.Timer) error {
 	if rewrite {
 		updated = false
 	}
+	if rewrite {
+		// the backends of the update that failed are not in the changed set
+		// anymore, so all of them need to be sorted and filled again
+		i.config.Backends().SortAllEndpoints(i.options.SortEndpointsBy)
+		i.config.Backends().FillAllSourceIPs()
+	}
 	if i.options.SortEndpointsBy != "random" {
 		i.config.Backends().SortChangedEndpoints(i.options.SortEndpointsBy)
 	} else if !updated {
